@@ -122,6 +122,7 @@ func findConstSwitches(c *Ctx, p *packages.Package) []*constSwitch {
 				continue
 			}
 			var armStack []string
+			helperStack := map[*ast.FuncDecl]bool{}
 			var walk func(n ast.Node)
 			walk = func(n ast.Node) {
 				switch x := n.(type) {
@@ -169,6 +170,10 @@ func findConstSwitches(c *Ctx, p *packages.Package) []*constSwitch {
 										if as, ok := cc.Body[0].(*ast.AssignStmt); ok && len(as.Rhs) == 1 {
 											val = constName(info, as.Rhs[0])
 										}
+										// the same table in a helper: case K: return V
+										if rs, ok := cc.Body[0].(*ast.ReturnStmt); ok && len(rs.Results) == 1 {
+											val = constName(info, rs.Results[0])
+										}
 									}
 									if val == "" {
 										good = false
@@ -195,13 +200,25 @@ func findConstSwitches(c *Ctx, p *packages.Package) []*constSwitch {
 					if m == n || m == nil {
 						return true
 					}
-					switch m.(type) {
+					switch y := m.(type) {
 					case *ast.TypeSwitchStmt, *ast.SwitchStmt:
 						walk(m)
 						return false
+					case *ast.CallExpr:
+						// a helper introduced since the reference was written belongs to the arm that calls it
+						if cal := Callee(info, y); cal != nil && cal.Pkg() == p.Types && isNewFunc(FuncID(cal)) && len(helperStack) < 3 {
+							if hd := c.Decl(cal); hd != nil && hd.Body != nil && !helperStack[hd] {
+								helperStack[hd] = true
+								walk(hd.Body)
+								delete(helperStack, hd)
+							}
+						}
 					}
 					return true
 				})
+			}
+			if isNewFunc(declID(p, fd)) {
+				continue // seen from its callers
 			}
 			walk(fd.Body)
 		}
